@@ -220,6 +220,17 @@ def command_ops(rng, pr):
     out.append({"kind": "cmd", "files": {"models.py": model},
                 "argv": ["gen_routes", "--crud", rng.choice(("CRD", "CR", "C")), "--model-path", "{ROOT}/models.py",
                          "--model-name", "Config", "--routes-path", "{ROOT}/routes.py"]})
+    # routes for a second, differently named model, each followed by openapi_bulk over its own project: a document
+    # must not contain leftovers (request bodies, schemas) of documents generated earlier in the process
+    for mname2 in rng.sample(("Dataset", "Invoice", "Order", "Owner"), 2):
+        model2 = model.replace("class Config(Base)", "class %s(Base)" % mname2).replace('"config_tbl"', '"%s_tbl"' % mname2.lower()) \
+            .replace("Config model", "%s model" % mname2)
+        out.append({"kind": "cmd", "files": {"models.py": model2},
+                    "argv": ["gen_routes", "--crud", rng.choice(("CRD", "CR", "C", "CD")), "--model-path", "{ROOT}/models.py",
+                             "--model-name", mname2, "--routes-path", "{ROOT}/routes.py"],
+                    "then": [{"fn": "cdd.compound.openapi.gen_openapi.openapi_bulk",
+                              "kwargs": {"app_name": "rest_api", "model_paths": ["{ROOT}/models.py"],
+                                         "routes_paths": ["{ROOT}/routes.py"]}}]})
     bump("openapi_cmd")
     # the OpenAPI emitter on two different models (two operations): leftovers of one must not appear in the other
     for mname in rng.sample(("Owner", "Pet", "Invoice", "Dataset"), 2):
